@@ -13,7 +13,7 @@ use prost::Message;
 mod generated;
 
 use generated::collector::{logs::v1 as clogs, metrics::v1 as cmetrics, trace::v1 as ctrace};
-use generated::{common::v1 as common, logs::v1 as logs, metrics::v1 as metrics, trace::v1 as trace};
+use generated::{common::v1 as common, metrics::v1 as metrics, trace::v1 as trace};
 
 #[derive(Clone, Debug, PartialEq)]
 pub enum AV {
